@@ -48,7 +48,7 @@ CONFIG = {'gen': ['SmbCommands'],
                'OpenAndxResponse, QueryInformationResponse, ReadRawRequest, RenameRequest — a nested read through a window of the type\'s fixed size whose error and count are dropped, offset moved by the window; rename_request_unchecked_decode_total: that decode cannot fail —, SessionSetupAndxRequest, SessionSetupAndxResponse, '
                'TransactionRequest, WriteAndCloseRequest, WriteAndxRequest, WriteMpxRequest, WriteRawRequest; mirror_loops_extends; '
                'mirror_loops_types_lawful). For the 5 commands outside (non_mirror_loops_commands: FindResponse / FindUniqueResponse with '
-               'the recorded 43-byte window, NegotiateRequest — Dialects reads to the end of its input —, NegotiateResponse — '
+               'the recorded 43-byte window, NegotiateRequest — Dialects reads to the end of its input; proved for this one program with the statement of mirror_loops_roundtrip: negotiate_request_roundtrip, Props/C04/Direct.lean —, NegotiateResponse — '
                'null-terminated strings —, WriteRequest — recorded finding field-ahead-of-blocks: Marshal puts the marshalled Data ahead of the parameter block; write_request_never_decodes proves for every field value that Unmarshal rejects the result; consistent no longer asks that nothing precede the parameter block, so the oracle reports it —) the round trip is decided by the '
                'correspondence runs only. slot_locality reads the layout through layoutZ (literal terminator bytes in the data block '
                'passed over, a range loop over an integer array one slot of variable width), 224 command/field pairs.',
